@@ -47,7 +47,7 @@ type Prop struct {
 type tssSig = tsscommon.SignatureData
 
 type Case struct {
-	Mode string `json:"mode"` // digest | sig | sigsyn | sigraw | kec | multi | exec | execlite | submit
+	Mode string `json:"mode"` // digest | sig | sigsyn | sigraw | kec | multi | hist | exec | execlite | submit
 	// digest
 	Via      string `json:"via,omitempty"` // direct | evm | substrate
 	Version  string `json:"version,omitempty"`
@@ -86,6 +86,14 @@ type Case struct {
 	Flip     []int  `json:"flip,omitempty"`
 	FailHash []int  `json:"fail_hash,omitempty"` // exec: the digest request for these (non-empty) batches fails at once
 	Sched    string `json:"sched,omitempty"`
+	// exec: before the delivery is executed as described above, the SAME executors are handed the same
+	// delivery once while no digest can be had (EVM: the chain-id RPC behind the real BridgeContract fails in
+	// the given way - nil | zero | other; Substrate: the digest request fails): that Execute ends with an
+	// error, the message is retried when the endpoint is healthy again
+	Prior string `json:"prior,omitempty"`
+	// hist: long-lived digest objects (built once) and a history of digest requests on them (hist.go)
+	Objs []HObj `json:"objs,omitempty"`
+	Reqs []HReq `json:"reqs,omitempty"`
 }
 
 type Obs struct {
@@ -102,6 +110,8 @@ type Obs struct {
 	PassedOK  bool   `json:"passed_ok,omitempty"` // proposals / gas limit reached ExecuteProposals unchanged
 	// multi
 	Seen []Seen `json:"seen,omitempty"`
+	// hist
+	Answers []HAns `json:"answers,omitempty"`
 	// exec
 	Sessions []SessObs `json:"sessions,omitempty"`
 	Complete bool      `json:"complete,omitempty"`
@@ -117,9 +127,15 @@ type Obs struct {
 type fakeEvmClient struct {
 	evmclient.Client // nil: nothing else may be called
 	id               *big.Int
+	ctl              *rpcCtl // nil: the endpoint is always healthy
 }
 
-func (f *fakeEvmClient) ChainID(ctx context.Context) (*big.Int, error) { return f.id, nil }
+func (f *fakeEvmClient) ChainID(ctx context.Context) (*big.Int, error) {
+	if f.ctl != nil {
+		return f.ctl.chainID(f.id)
+	}
+	return f.id, nil
+}
 
 type recEvmBridge struct {
 	sig   []byte
@@ -293,6 +309,8 @@ func run(c Case) Obs {
 		return assemble(unhex(c.R), unhex(c.S), unhex(c.Rec))
 	case "multi":
 		return runMulti(c)
+	case "hist":
+		return runHist(c)
 	case "exec":
 		return runExec(c)
 	case "execlite":
@@ -570,6 +588,9 @@ func gen(r *vgen.Rng, tier string) []Case {
 	}
 	heavy = append(heavy, execEvm(3, 2, "p1", false, 0), execEvm(2, 2, "", true), execSub(3, true),
 		execEvmBig(4, 2, 1, 1, "p1"))
+	// two of them as a RETRY: the same executors have been handed the delivery before, while no digest could be
+	// had (no randomness is drawn for this)
+	heavy[len(heavy)-3].Prior, heavy[len(heavy)-2].Prior = "nil", "sub"
 	// the same without signing (one relayer): an over-cap proposal at every position
 	for n := 2; n <= 4; n++ {
 		for big := 0; big < n; big++ {
@@ -583,6 +604,7 @@ func gen(r *vgen.Rng, tier string) []Case {
 		heavy = append(heavy, execEvmBig(2, 1, 0, 0, ""), execEvmBig(3, 1, 0, 0, "p1"), execEvmBig(3, 2, 1, 0, ""), execEvmBig(4, 1, 2, 2, ""), execEvmBig(3, 2, 2, 0, "p1"))
 		heavy = append(heavy, execSub(2, false), execEvm(3, 1, "p1", false, 0), execEvm(4, 2, "", true), execEvm(4, 2, "p1", true, 1), execEvm(3, 3, "p1", true),
 			execSub(4, true), execSub(1, false))
+		heavy[len(heavy)-6].Prior, heavy[len(heavy)-5].Prior, heavy[len(heavy)-3].Prior, heavy[len(heavy)-1].Prior = "zero", "other", "nil", "sub"
 	}
 	sigStart := len(out)
 	// --- signatures -----------------------------------------------------------------------------------
@@ -626,6 +648,10 @@ func gen(r *vgen.Rng, tier string) []Case {
 	}
 	for i := 0; i < 10*mul; i++ {
 		out = append(out, Case{Mode: "kec", Msg: hex.EncodeToString(r.Bytes(r.Intn(700)))})
+	}
+	// --- histories on long-lived digest objects (generated last: the cases above do not move) -----------------
+	for _, pl := range histPlans(r, thorough) {
+		heavy = append(heavy, genHist(r, pl, smallProp))
 	}
 	// one heavy case per shard of signature cases
 	for i, h := range heavy {
@@ -673,6 +699,25 @@ func coq(c Case, o Obs) string {
 			via := map[string]string{"direct": "Direct", "evm": "Evm", "substrate": "Substrate"}[t.Via]
 			return "(Tup " + via + " " + vgen.Str(t.Version) + " " + fmt.Sprintf("%d%%N", t.Chain) + " " + hexLit(t.Contract) + " " + vgen.ListOf(t.Props, coqProp) + ")"
 		}) + " " + vgen.ListOf(o.Seen, func(s Seen) string { return vgen.Pair(vgen.Nat(s.Idx), hexLit(s.Digest)) })
+	case "hist":
+		if len(o.Answers) != len(c.Reqs) {
+			panic("hist: requests and answers differ in number")
+		}
+		var reqs []string
+		for i, q := range c.Reqs {
+			ho := c.Objs[q.Obj]
+			via := map[string]string{"direct": "Direct", "evm": "Evm", "substrate": "Substrate"}[ho.Via]
+			ans := "HErr"
+			switch a := o.Answers[i]; {
+			case a.Panic:
+				ans = "HPanic"
+			case !a.Err:
+				ans = "(HDigest " + hexLit(a.Digest) + ")"
+			}
+			reqs = append(reqs, "HReq "+vgen.Nat(q.Obj)+" (Tup "+via+" "+vgen.Str(ho.Version)+" "+fmt.Sprintf("%d%%N", ho.Chain)+" "+hexLit(ho.Contract)+" "+
+				vgen.ListOf(q.Props, coqProp)+") "+vgen.Bool(q.Fail != "" && ho.Via == "evm")+" "+ans)
+		}
+		return "Hist " + vgen.List(reqs)
 	case "exec", "execlite":
 		via := map[string]string{"evm": "Evm", "substrate": "Substrate"}[c.Via]
 		return "Exec " + via + " " + fmt.Sprintf("%d%%N", c.Chain) + " " + hexLit(c.Contract) + " " + vgen.ListOf(o.Sessions, func(s SessObs) string {
@@ -699,8 +744,20 @@ func main() {
 		Coq:       coq,
 		Kind: func(c Case) string {
 			switch c.Mode {
-			case "digest", "exec", "execlite":
+			case "digest", "execlite":
 				return c.Mode + "-" + c.Via
+			case "exec":
+				if c.Prior != "" {
+					return "exec-" + c.Via + "-retry"
+				}
+				return "exec-" + c.Via
+			case "hist":
+				for _, q := range c.Reqs {
+					if q.Fail != "" {
+						return "hist-rpc-failures"
+					}
+				}
+				return "hist-healthy"
 			case "multi":
 				if c.Workers > 0 {
 					return "multi-concurrent"
@@ -717,6 +774,14 @@ func main() {
 				return len(c.Msg) > 0
 			case "multi":
 				return len(c.Tuples) > 1
+			case "hist":
+				// a digest came back after an earlier request of the same object had failed, or two digests
+				for i, a := range o.Answers {
+					if a.Digest != "" && i > 0 {
+						return true
+					}
+				}
+				return false
 			case "exec":
 				return len(o.Sessions) > 0
 			case "execlite":
@@ -724,7 +789,7 @@ func main() {
 			}
 			return true
 		},
-		Rule:      "digest: batches of 0..5 proposals (data lengths 0,1,31,32,33,135,136,137,300 and random; domains 0/1/255; nonces 0/1/2^63/2^64-1; resource ids zero/ff/random) x chain ids (0,1,2^63-1,random) x contracts (zero, ff, random) through chains.ProposalsHash, BridgeContract.ProposalsHash and Pallet.ProposalsHash, plus base batches with single-field neighbours (order, version, chain id, contract); sig: real secp256k1 signatures (with forced leading-zero r / s) assembled by the real executeBatch and executeProposal and recovered with crypto.SigToPub; sigsyn: boundary and random r,s; sigraw: arbitrary slices as coded; kec: crypto.Keccak256 on every length 0..300; multi: 4-6 tuples differing pairwise in one component hashed by the real entry points in one process in a sequence with repetitions and by 4-16 goroutines concurrently; submit: the real executeBatch (through the real BridgeContract.ExecuteProposals, call data decoded) / executeProposal on 2-4-member batches with some or all members executed when the signature arrives; exec: three relayers run the real EVM / Substrate Executor.Execute with the real coordinator and real threshold ECDSA (multi-batch deliveries, GOMAXPROCS(1) dispatch with a failing digest request, members executed at delivery or between hashing and signature, equal nonces from different origins, an over-cap proposal as first pending proposal = a leading empty batch), per session the signed digest (ecrecover) and the submitted batch, and whether Execute crashed; execlite: one relayer without peers runs the real EVM Execute on deliveries of 2..5 proposals with an over-cap proposal at every position (crash, digest requests). distinct = distinct input JSON; non-trivial = non-empty batch / non-empty message / every signature case",
+		Rule:      "digest: batches of 0..5 proposals (data lengths 0,1,31,32,33,135,136,137,300 and random; domains 0/1/255; nonces 0/1/2^63/2^64-1; resource ids zero/ff/random) x chain ids (0,1,2^63-1,random) x contracts (zero, ff, random) through chains.ProposalsHash, BridgeContract.ProposalsHash and Pallet.ProposalsHash, plus base batches with single-field neighbours (order, version, chain id, contract); sig: real secp256k1 signatures (with forced leading-zero r / s) assembled by the real executeBatch and executeProposal and recovered with crypto.SigToPub; sigsyn: boundary and random r,s; sigraw: arbitrary slices as coded; kec: crypto.Keccak256 on every length 0..300; multi: 4-6 tuples differing pairwise in one component hashed by the real entry points in one process in a sequence with repetitions and by 4-16 goroutines concurrently; hist: 1-3 long-lived digest objects (one real BridgeContract over a scripted chain client, a second contract object sharing its chain id or address, a real Pallet, the package function) and 3-6 digest requests on them with freshly built neighbouring batches, the chain-id RPC failing ((nil,err) / (0,err) / (other id,err)) during the first request, the first two, a later one, flapping or never - every value returned without error against the model digest for the object's real chain id and contract; submit: the real executeBatch (through the real BridgeContract.ExecuteProposals, call data decoded) / executeProposal on 2-4-member batches with some or all members executed when the signature arrives; exec: three relayers run the real EVM / Substrate Executor.Execute with the real coordinator and real threshold ECDSA (multi-batch deliveries, GOMAXPROCS(1) dispatch with a failing digest request, members executed at delivery or between hashing and signature, equal nonces from different origins, an over-cap proposal as first pending proposal = a leading empty batch), per session the signed digest (ecrecover) and the submitted batch, and whether Execute crashed; two of the deliveries are RETRIES (the same executors got the delivery before while the chain-id RPC behind the real BridgeContract / the Substrate digest request failed); execlite: one relayer without peers runs the real EVM Execute on deliveries of 2..5 proposals with an over-cap proposal at every position (crash, digest requests). distinct = distinct input JSON; non-trivial = non-empty batch / non-empty message / every signature case",
 		ShardSize: shardSize,
 	})
 }
